@@ -384,13 +384,17 @@ class World:
             return 'opaque'
         out = []
         self._untouched = []
+        self._rewritten_before_lost = []
         for p in rec['paths']:
             pos = ('path', p)
             exact = True         # every step so far matched the statement verbatim and unambiguously
             verbatim = True
             untouched = True     # ... and no step was aimed at it, at anything beneath it or at anything around it
+            rewritten = False    # some step replaced the statement itself (its image became a span) before track was lost
             for k in steps:
                 al = self.nodes[k]['al']
+                if pos[0] == 'span':
+                    rewritten = True
                 if pos[0] == 'path':
                     c = al.stmt.get(pos[1])
                     aimed = self.nodes[k].get('aimed')
@@ -410,6 +414,7 @@ class World:
                 pos = al.push(pos)
             out.append((pos, exact, verbatim))
             self._untouched.append(untouched and exact and verbatim and pos[0] == 'path')
+            self._rewritten_before_lost.append(rewritten)
         return out
 
     def do_forward(self, op):
@@ -425,6 +430,7 @@ class World:
         f = self.nodes[ti]['fn']
         model = self.model_image(rec, ti)
         untouched = list(self._untouched) if not isinstance(model, str) else []
+        rewritten_before_lost = list(self._rewritten_before_lost) if not isinstance(model, str) else []
         try:
             res = f.forward(rec['cursor'])
             raised = None
@@ -492,7 +498,7 @@ class World:
                 return res
         # (b) per member: a survivor must be in the answer; what replaced a rewritten one bounds it
         spans = []
-        for o, fp_o, hfp_o, loc_o, (pos, exact, verbatim) in zip(rec['paths'], rec['fps'], rec['hfps'], rec['locs'], model):
+        for mi, (o, fp_o, hfp_o, loc_o, (pos, exact, verbatim)) in enumerate(zip(rec['paths'], rec['fps'], rec['hfps'], rec['locs'], model)):
             if pos[0] == 'path':
                 if exact and pos[1] not in R:
                     self.vio('forward-unrelated', {'why': 'the descendant of the named statement is not in the answer',
@@ -515,6 +521,11 @@ class World:
             else:
                 # beneath a rewritten statement: raising is expected; resolving only to the same statement
                 ok = any(M.fingerprint(x) == fp_o or (loc_o is not None and getattr(x, 'loc', None) == loc_o) for x in rstmts)
+                if not ok and rewritten_before_lost[mi]:
+                    # an earlier step had replaced the statement itself: what descends from it no longer looks
+                    # like it, and the model cannot say more (counted, not alarmed)
+                    self.stats.count('undecided', 'forward-of-a-rewritten-statement-beneath-a-rewritten-one')
+                    ok = True
                 if not ok:
                     self.vio('forward-unrelated', {'why': 'statement beneath a rewritten one resolved elsewhere', 'result': repr(rp)}, where_kind=how)
                     return res
